@@ -70,17 +70,24 @@ claim('C01', 'Coq theorem by structural induction over the construct syntax (clo
       'roundtrip_fragment: for every construct satisfying the decidable predicate frag (FormatField integers, BytesInteger of any width, VarInt, '
       'ZigZag, Bytes, GreedyBytes in tail position, Pass, Const, Renamed, Struct, Sequence, Array, Prefixed with any integer length field, Padded, '
       'Aligned, FixedSized - all parameters constants, any nesting depth) build-then-parse returns the value built, at any stream position. '
+      'dep_roundtrip: the same for the dependent fragment dfrag - Structs whose members are sized by earlier integer fields (Bytes / Array / Padded / '
+      'FixedSized of this.n) or chosen by them (Switch / IfThenElse on this.k), any depth. '
       'Context-dependent members, strings, floats, mappings, bit-level and byte-transforming constructs are tied by correspondence with the '
       'extracted model and by the round-trip oracle on the implementation (generated constructs to depth 4 x boundary values).', 'DESIGN.md 6/C01')
-claim('C02', 'Coq theorems (round trip by induction; unique / canonical encodings of integers, VarInt, Flag) + correspondence + idempotence oracle',
-      'C01_roundtrip_closed gives reproduction of self-produced bytes on the closed fragment; bytesint_parse_then_build (one encoding per value), '
+claim('C02', 'Coq theorems (build after parse is stable, by induction over the syntax; unique / canonical encodings of integers, VarInt, Flag) + correspondence + idempotence oracle',
+      'rebuild_fragment: for every construct of the closed sequential fragment with named Struct members, the value parsed from what was built builds the '
+      'same bytes again, at any position, in any context; hence C02_reproduced_exactly (bytes the construct produced are reproduced) and '
+      'C02_reencoding_is_idempotent (after one accepted re-encoding of ANY input nothing changes any more). dep_rebuild: the same for dependent layouts '
+      '(sizes and Switch / IfThenElse choices read from earlier integer fields). '
+      'C01_roundtrip_closed gives the parse half; bytesint_parse_then_build (one encoding per value), '
       'varint_normalises (non-minimal accepted, canonical emitted, stable), flag_canonical. The oracle evaluates build(parse(x)) idempotence '
       'on the implementation for non-canonical inputs (non-minimal VarInts, all flag bytes, padding, trailing bytes in regions, duplicate '
       'labels, alternatives), generated constructs x mutated encodings, and 15 gallery formats; three recorded known findings.', 'DESIGN.md 6/C02')
 claim('C06', 'Coq theorems on the stream helpers and leaves + outcome-class correspondence + truncation sweep + k-th-operation fault injection',
       'parse_only_construct_errors: for every construct of the closed sequential fragment and every input whatsoever, parse returns a value or a '
       'ConstructError subclass, never a foreign exception; truncation_fragment: every strict prefix of what such a construct builds is rejected with StreamError, at '
-      'any stream position (both by induction on the syntax). The stream helpers fail only with StreamError and never return fewer bytes than requested; integer leaves and VarInt reject every truncated '
+      'any stream position (both by induction on the syntax); dep_parse_only_construct_errors / dep_truncation: both for the dependent fragment '
+      '(sizes and Switch / IfThenElse choices read from earlier integer fields). The stream helpers fail only with StreamError and never return fewer bytes than requested; integer leaves and VarInt reject every truncated '
       'input with StreamError; ExplicitError escapes Select/GreedyRange/Peek; sizeof never leaks KeyError (all constructs). On the library: generated '
       'constructs x random/boundary/huge-length/mutated inputs must give a value or a ConstructError (outcome class compared with the extracted '
       'model); every strict prefix of canonical encodings of strict constructs must be StreamError; every k-th stream operation is made to raise / '
@@ -124,11 +131,13 @@ claim('C04', 'Coq theorems by induction over the construct syntax (model of the 
       'text is evaluated by the same eval as the interpreter in the model: that the text means the expression is C11. Eight repaired defects '
       '(F3, F22-F28). FlagsEnum, Peek, Union with a selector and PascalString (instance-level emitter) are outside the theorem, inside the oracles.',
       'DESIGN.md 6/C04')
-claim('C19', 'Coq model of the exporter ladder and of a reference reading of the schema dialect; theorem for all flat structs; emitted-schema / reading / layout correspondence; schema-vs-parse layout oracle',
+claim('C19', 'Coq model of the exporter ladder and of a reference reading of the schema dialect; theorems for all flat structs and for structs nested in structs; emitted-schema / reading / layout correspondence; schema-vs-parse layout oracle',
       'model/Ksy.v: ksy_emit (the _compileseq/_compileprimitivetype/_compilefulltype fallback ladder with the id allocator over the per-class '
       'emitters), ksy_interp (Kaitai meaning of type, size, size-eos, contents, repeat*, if, terminator*, pad-right, encoding, enum, switch-on, user '
       'types), ksy_layout (the construct itself). ksy_describes_flat_struct: for every Struct of named flat members and every input it parses, '
-      'reading the emitted schema gives every field the same identifier, extent and value (induction over the member list). ksy_emit is compared '
+      'reading the emitted schema gives every field the same identifier, extent and value (induction over the member list). '
+      'ksy_describes_nested_struct: the same for Structs nested in Structs to depth 20 - every nested Struct gets a helper type type_<k> with a fresh k '
+      '(decimal names are injective), later types never shadow earlier ones, and every level reads to the same records. ksy_emit is compared '
       'with the dictionary the real export_ksy() produces (stub YAML dumper), ksy_interp with an independent Python reading, ksy_layout with an '
       'instrumented parse, on generated exportable structs (integers, floats, bytes, strings in 5 encodings, flags, enums, nested structs, arrays, '
       'ranges, prefixed, padded, conditionals, bit structs, constants with non-verbatim fields) - 31k cases thorough; the layout oracle compares '
